@@ -433,6 +433,70 @@ theorem C04_partial (hd : NamesDistinct pr) (hist : List Step) (ha : ∀ st ∈ 
   unfold goodRun
   simp only [hm, hsum.1, ha1, ha2, Bool.and_self]
 
+/-- the core of `C04_partial`, for the VERDICT of the check (whatever mode asked for it) -/
+theorem C04_partial_verdict (hd : NamesDistinct pr) (hist : List Step) (ha : ∀ st ∈ hist, Allowed st)
+    (i : Nat) (t : Task) (now : Nat) (dry : Bool) (ht : pr.tasks[i]? = some t) (hm : t.method = .checksum)
+    (hsrc : t.sources.isEmpty = false)
+    (hv : (isUpToDate H pr t dry now (runHist Cfg.fixed H pr hist State.empty).1).2 = true) :
+    goodRun H pr i t (runHist Cfg.fixed H pr hist State.empty).1 = true := by
+  have hinv := inv_hist H pr (keysDistinct_of_names hd) hist State.empty ha (inv_empty pr)
+  generalize (runHist Cfg.fixed H pr hist State.empty).1 = s at *
+  have hup : (isUpToDate H pr t false now s).2 = true := by
+    cases dry with
+    | false => exact hv
+    | true => rw [← isUpToDate_verdict_dry]; exact hv
+  rw [isUpToDate_sources H pr hsrc] at hup
+  have hsum : (sumCheck H pr t false s).2 = true := by
+    simp only [srcCheck, hm] at hup
+    cases hst : t.status.isEmpty <;> simp [hst] at hup <;> simp [hup]
+  rw [sumCheck_result] at hsum
+  simp only [Bool.and_eq_true, decide_eq_true_eq] at hsum
+  obtain ⟨a, ha1, ha2⟩ := hinv i t _ ht ⟨hm, hsrc⟩ hsum.2
+  unfold goodRun
+  simp only [hm, hsum.1, ha1, ha2, Bool.and_self]
+
+/-- **the query modes are as sound as a run** (the verdict is mode-independent:
+`isUpToDate_verdict_dry`): after any allowed history, `--status` exiting 0, `--dry` reporting "up to
+date" and an `up_to_date: true` of `--list --json` each imply `goodRun`. -/
+theorem C04_partial_queries (hd : NamesDistinct pr) (hist : List Step) (ha : ∀ st ∈ hist, Allowed st)
+    (i : Nat) (t : Task) (e : Env) (ht : pr.tasks[i]? = some t) (hm : t.method = .checksum)
+    (hsrc : t.sources.isEmpty = false) :
+    ((invoke Cfg.fixed H pr i .status e (runHist Cfg.fixed H pr hist State.empty).1).2.exit = .ok →
+      goodRun H pr i t (runHist Cfg.fixed H pr hist State.empty).1 = true) ∧
+    ((invoke Cfg.fixed H pr i .dry e (runHist Cfg.fixed H pr hist State.empty).1).2.skipped = true →
+      goodRun H pr i t (runHist Cfg.fixed H pr hist State.empty).1 = true) ∧
+    ((invoke Cfg.fixed H pr i .listJson e (runHist Cfg.fixed H pr hist State.empty).1).2.bits[i]? = some true →
+      goodRun H pr i t (runHist Cfg.fixed H pr hist State.empty).1 = true) := by
+  have key := fun hv => C04_partial_verdict H pr hd hist ha i t e.now true ht hm hsrc hv
+  generalize (runHist Cfg.fixed H pr hist State.empty).1 = s at *
+  refine ⟨?_, ?_, ?_⟩
+  · intro h
+    simp only [invoke, ht] at h
+    split at h
+    · cases h
+    · apply key
+      cases hv : (isUpToDate H pr t true e.now s).2 with
+      | true => rfl
+      | false => simp [hv] at h
+  · intro h
+    simp only [invoke, ht] at h
+    split at h
+    · cases h
+    · apply key
+      cases hv : (isUpToDate H pr t true e.now s).2 with
+      | true => rfl
+      | false =>
+        simp only [hv, Bool.false_eq_true, if_false] at h
+        rw [runBody_skipped] at h; cases h
+  · intro h
+    simp only [invoke] at h
+    split at h
+    · simp at h
+    · apply key
+      simp only [listJson_bits Cfg.fixed H pr rfl, List.nil_append] at h
+      rw [List.getElem?_map, ht] at h
+      simpa using h
+
 /-! ## The declined prompt (F31) -/
 
 /-- **a declined prompt leaves no checksum entry**: a run of a checksum task that is not up to
@@ -1009,6 +1073,17 @@ theorem C04_timestamp_with_generates_false : ¬ C04_timestamp_with_generates := 
     (by decide) 0 tg (env 99) hb.1 (by decide) hb.2.1 hb.2.2.1
   rw [hb.2.2.2] at this
   cases this
+
+/-- **clock granularity** (the `≤ a.time` of `goodRun`'s timestamp branch, stated as a fact): a source
+rewritten in the same tick as a successful run (mtime 10 = the time of the run) is NOT newer than the
+marker: the next run is skipped, and `goodRun` — which reads "no source newer than the last attempt"
+with the same `≤` — holds; one tick later (mtime 11) the run rebuilds -/
+theorem C04_same_tick_edit_counts_as_seen :
+    let t := mk [120] .timestamp false 1
+    let s1 := (runHist Cfg.fixed hId (pj [t]) [w0, run 0 10, .op (.write 0 [2] 10)] State.empty).1
+    (invoke Cfg.fixed hId (pj [t]) 0 .run (env 20) s1).2.skipped = true ∧ goodRun hId (pj [t]) 0 t s1 = true ∧
+    (invoke Cfg.fixed hId (pj [t]) 0 .run (env 20)
+      (runHist Cfg.fixed hId (pj [t]) [w0, run 0 10, .op (.write 0 [2] 11)] State.empty).1).2.ran = [0] := by decide
 
 /-! ## non-vacuity of the timestamp theorems -/
 
